@@ -257,6 +257,18 @@ on_trap(int sig, siginfo_t *si, void *ucv)
         }
 }
 
+/* a crash inside the library (e.g. after a callee left DF set or lost rsp) must not lose the lines
+ * already produced */
+static void
+on_fatal(int sig)
+{
+        printf("CRASH signal=%d fn=%s suite=%s variant=%s\n", sig, cur_fn, cur_suite, cur_variant);
+        printf("SUMMARY calls=%lu clobbers=%lu jobs=%lu bad_status=%lu\n", n_calls, n_clobbers, n_jobs_done,
+               n_bad_status);
+        fflush(stdout);
+        _exit(4);
+}
+
 static uintptr_t lib_base;
 static int
 phdr_cb(struct dl_phdr_info *info, size_t size, void *data)
@@ -1192,6 +1204,10 @@ main(int argc, char **argv)
                 }
         }
         setvbuf(stdout, NULL, _IOFBF, 1 << 16);
+        signal(SIGSEGV, on_fatal);
+        signal(SIGBUS, on_fatal);
+        signal(SIGILL, on_fatal);
+        signal(SIGFPE, on_fatal);
         __builtin_cpu_init();
         if (trace != NULL && trace_setup(trace, only_fn) != 0)
                 return 2;
